@@ -13,7 +13,9 @@ RULE = ("one op line per case: `khx <type> <value> <specification key bytes>` on
         "are recomputed by an independent Python serializer (both must agree); the expected handle is computed in "
         "Python (zero padding / hashlib.md5) from the maximum key size computed in Python from the type; random keyed "
         "types with distinct flattened ids: fixed-size keys around the 16-byte border (8..24 bytes), string and "
-        "sequence keys (bounded and unbounded), nested key structures; non-trivial: key of more than one member or a "
+        "sequence keys (bounded and unbounded), nested key structures; FOLLOW-UP 3: one generated type in twelve has an OPTIONAL "
+        "member of structure type with key members of its own (value present or absent): those members are not key members, "
+        "the specification bytes and the independent Python key bytes leave them out; non-trivial: key of more than one member or a "
         "key of maximum size > 16; distinct by canonical op line")
 ASSUMPTIONS = [
     "member order of the key serialization = declaration order (the order the code uses; for the types IDL produces "
@@ -79,7 +81,9 @@ def oracle(case, out):
         bad(f"key of maximum size {X.max_key_size(t)} > 16 is zero-padded, not hashed: expected {exp.hex()}", D16)
     else:
         kt, kv = X.key_holder(t, v)
-        bad(f"handle differs from the rule ({rule}): expected {exp.hex()}", X.attribute(kt, kv, 1))
+        # attributed to an XCDR finding only if the Lean hypothesis wfKey rejects the case
+        inside = X.model_outputs([f"wfk {ty} {vs}"])[0].endswith(" 1")
+        bad(f"handle differs from the rule ({rule}): expected {exp.hex()}", None if inside else X.attribute(kt, kv, 1))
     return viol
 
 
@@ -119,7 +123,7 @@ def gen_cases(ctx):
         if k % 2 == 0:
             t = gen_border_type(r)
         else:
-            t = X.gen_keyed_type(r, ver=1, collide=False, exotic=(k % 13 == 1))
+            t = X.gen_keyed_type(r, ver=1, collide=False, exotic=(k % 13 == 1), optkey=(k % 6 == 1))
         v = X.gen_value(r, t, X.Knobs(ver=1), ver=1)
         if not X.legal_sample(t, v) or "_" in X.key_view(t, v):
             continue
@@ -135,6 +139,11 @@ def gen_cases(ctx):
 
 
 CORPUS = [
+    # follow-up 3: the key members of an OPTIONAL nested structure are not part of the key (present / absent)
+    ("SF{0k:u8,5o:SF{6k:u8,7k:u16},2:u32}", "{5,{1,2},7}"),
+    ("SF{0k:u8,5o:SF{6k:u8,7k:u16},2:u32}", "{5,_,7}"),
+    ("SA{0k:u16,3:SF{4:u8,8o:SA{9k:s}}}", "{7,{1,{x6162}}}"),
+    ("SM{3o:SF{4k:u64,5k:u64,6k:u8},2k:u32}", "{{1,2,3},9}"),          # with the optional members 21 bytes -> MD5; the key is 4
     ("SF{0k:s,1:u32}", "{x6162,7}"),                                   # D16 exemplar
     ("SF{0k:Q(u8)}", "{[1,2,3]}"),                                     # D16, sequence
     ("SF{0k:u64,1k:u64}", "{1,2}"),                                    # exactly 16
@@ -163,6 +172,10 @@ def run(ctx):
         if isinstance(m, int) and m != X.UNBOUNDED and 14 <= m <= 18:
             ctx.count(f"maximum key size = {m}")
         ctx.count("actual key size " + ("<= 16" if len(b) <= 16 else "> 16"))
+        ps = X.opt_keyed_struct_paths(t)
+        if ps:
+            ctx.count("type has an optional structure member with key members of its own: value " +
+                      ("absent" if any(X.value_at(X.parse_val(vs), p) is None for p in ps) else "present"))
         ctx.count("independent Python key bytes " + ("computed" if X.key_bytes_py(t, X.parse_val(vs)) is not None else "n/a"))
     for i in range(0, len(cases), 4000):
         ctx.differential(ENGINE, cases[i:i + 4000], nontrivial=nontrivial, oracle=oracle, model_engine=eng, shrink=False)
@@ -173,7 +186,9 @@ TECHNIQUE = ("Lean 4 theorem over the key-holder model + differential correspond
 LEVEL_TEXT = ("Kernel-checked Lean theorems: C12_rule_partial (for every keyed structure whose key has a fixed serialized size n "
               "(primitives, enumerations, arrays, final / appendable structures of those) and every value inside wfKey: the key "
               "serialization has exactly n bytes and the handle is pad16 if n <= 16, MD5 otherwise, i.e. the 7.6.8 rule with the "
-              "maximum size), C12_small_keys_are_padded, and the as-is witness C12_asis_counterexample (string key \"ab\": the type "
+              "maximum size), C12_small_keys_are_padded, C12_optional_nested_struct_not_in_key (every keyed structure type, value, optional "
+              "non-key member - in particular an optional nested structure with key members of its own - and replacement value incl. "
+              "none: key holder, key serialization, handle and the outcome of the real function unchanged), and the as-is witness C12_asis_counterexample (string key \"ab\": the type "
               "has no maximum size, the code pads; finding D16, replayed). For keys of variable size the rule of the standard is "
               "violated by the code exactly as D16 says; the differential run checks every handle against the Python computation "
               "and reports those cases as the known finding. The model is tied to the code by the bytes of the handles of "
